@@ -127,6 +127,9 @@ func hostileMsg(r *Rand, msize uint32) *Msg {
 		}
 		m.Wqid = append(m.Wqid, Qid{uint8(r.Intn(256)), u32(), hostileU64[r.Intn(len(hostileU64))]})
 	}
+	if m.Type == Twalk && resolving && nw > 2 && r.Pct(70) {
+		m.Fid, m.Newfid = 0, uint32(r.Pick(0, 5, 6)) // from the root, where the long walk does resolve
+	}
 	m.Mode = uint8(r.Pick(0, 1, 2, 3, 16, 17, 64, 255))
 	m.Perm = uint32(r.Pick(0o644, 0o755, 0x80000000|0o755, 0x02000000, 0x01000000, 0x00800000, 0x00200000, 0x00100000, 0xFFFFFFFF, 0))
 	m.Name, m.Ext = name(), name()
@@ -315,6 +318,15 @@ func c06Exec(x *Ctx) {
 				send(Encode(&Msg{Type: Twalk, Tag: 3, Fid: 0, Newfid: 2, Wname: []string{"file"}}, p.Dotu))
 				send(Encode(&Msg{Type: Topen, Tag: 4, Fid: 1, Mode: 0}, p.Dotu))
 				send(Encode(&Msg{Type: Topen, Tag: 5, Fid: 2, Mode: uint8(r.Pick(0, 1, 2))}, p.Dotu))
+				if msize >= 256 && r.Pct(35) {
+					// a walk of 16, 17 or 18 elements that all exist (down and up again)
+					var names []string
+					for k := r.Pick(16, 17, 17, 18); k > 0; k-- {
+						names = append(names, []string{"sub", ".."}[len(names)%2])
+					}
+					send(Encode(&Msg{Type: Twalk, Tag: 7, Fid: 0, Newfid: 7, Wname: names}, p.Dotu))
+					x.Probe("walk-of-16+-resolving-elements")
+				}
 				if r.Bool() {
 					cnt := uint32(r.Pick(0, 50, 200, int(msize)-24))
 					if m := p.Msize; m >= 24 && cnt > m-24 && r.Bool() {
